@@ -862,7 +862,7 @@ PROPS = {
                      "Vibrato.Refine.applyOps_commutes", "Vibrato.Refine.map_compose_refined", "Vibrato.Refine.history_costs_refined",
                      "Vibrato.Refine.user_translated_by_all", "Vibrato.Refine.history_tokenize_refined",
                      "Vibrato.Refine.mapperAgree_true"],
-        "streams": with_cli(tok_streams("c06", 300, 10000, tok2_classifier("C06", has_dops)), {}, ("map-",), 12, 400),
+        "streams": with_cli(tok_streams("c06", 300, 10000, tok2_classifier("C06", has_dops)), {}, ("map-", "reorder-map"), 12, 400),
         "rule": "random histories of {map (valid permutations and malformed iterators: 0, duplicate, omission, short, long), "
                 "load user lexicon (incl. out-of-range ids), clear, write/read} followed by tokenization; tokens must equal those of "
                 "the unmapped dictionary with the same user lexicon up to ids; non-trivial = at least one dictionary operation and tokens",
@@ -925,7 +925,7 @@ PROPS = {
                      "Vibrato.counts_history_independent", "Vibrato.counts_after_init", "Vibrato.sumIncr_append",
                      "Vibrato.empty_first_line_panics", "Vibrato.empty_later_line_recounts", "Vibrato.worker_probs_spec",
                      "Vibrato.worker_probs_eq_computeProbs", "Vibrato.counter_dims", "Vibrato.probs_never_panics", "Vibrato.reorder_accepted"],
-        "streams": tok_streams("c13", 300, 8000, tok2_classifier("C13", has_probs)),
+        "streams": with_cli(tok_streams("c13", 300, 8000, tok2_classifier("C13", has_probs)), {}, ("reorder-",), 12, 400),
         "rule": "histories of reset/tokenize/update_connid_counts incl. empty lines and repeats, with and without ignore_space; raw "
                 "counts compared with the model after every update; the id orderings must be permutations sorted by count then id",
         "trusted_base": LATTICE_TB + ["f64 ordering of cnt/sum assumed monotone in cnt (counts < 2^53)"],
